@@ -123,6 +123,7 @@ func runC12(c *engine.Ctx, tier string) {
 	c12MapWrite(c, d, n)
 	slashFact := c12StrPathShape(c)
 	c12Sentinel(c, d, n, slashFact)
+	c12ConstIndex(c, d, n)
 	c12Tables(c, d)
 	c12Regexp(c, d)
 	c12NaN(c, d)
@@ -1036,4 +1037,92 @@ func c12NaN(c *engine.Ctx, d *c12Data) {
 			}
 		}
 	}
+}
+
+// ---- C12.3c: constant indexes into slices that come from outside the function
+
+var constIdxRe = regexpMust(`^[0-9]+$`)
+
+// lenAtLeast: conds entail len(x) > k.
+func lenAtLeast(c *engine.Ctx, conds []engine.Lit, x string, k int64) bool {
+	l := "len(" + x + ")"
+	if k == 0 {
+		if engine.Entails(conds, engine.FLit{Lit: engine.Lit{L: l, R: "0", RConst: constant.MakeInt64(0), Mask: 5}}, c.P.Domain) {
+			return true
+		}
+	}
+	return engine.Entails(conds, engine.FLit{Lit: engine.Lit{L: l, R: fmt.Sprint(k), RConst: constant.MakeInt64(k), Mask: 4}}, c.P.Domain)
+}
+
+func c12ConstIndex(c *engine.Ctx, d *c12Data, n *c12Null) {
+	o := c.Custom("C12.3c", "K-guard(constant index)", "x[k] with a constant k, where x is a parameter or a field of a parameter (a slice the function did not build), is dominated by a length test len(x) > k — in the function or at every call site (argument substituted)",
+		"TypeOpts and split path elements come from the model, the store and the request: an empty slice panics at [0]")
+	defer o.Done(6)
+	reported := map[string]bool{}
+	sites := map[string]bool{}
+	for _, p := range d.paths {
+		for i := range p.Events {
+			e := &p.Events[i]
+			if e.Kind != engine.EvSite || e.SiteKind != "index" || len(e.SiteIdx) != 1 || !constIdxRe.MatchString(e.SiteIdx[0]) || !strings.HasPrefix(e.SiteType, "[]") {
+				continue
+			}
+			x := stripVer(e.SiteX)
+			if !strings.HasPrefix(x, "$") || strings.Contains(x, "(") {
+				continue // built by this function or returned by a call: not this rule
+			}
+			var k int64
+			fmt.Sscan(e.SiteIdx[0], &k)
+			skey := c.P.Pos(e.Pos) + "|" + x
+			if !sites[skey] {
+				sites[skey] = true
+				o.Site(c.P.Pos(e.Pos) + " " + types.ExprString(e.Node.(ast.Expr)) + " in " + p.Root.Name())
+			}
+			o.Eval(1)
+			conds := append(append([]engine.Lit{}, engine.CondsBefore(p, i)...), e.SiteLocal...)
+			if lenAtLeast(c, conds, e.SiteX, k) || lenAtLeast(c, conds, x, k) {
+				continue
+			}
+			if p.Lit == nil && n.lenGuardedByCallers(c, p.Root, x, k, 0) {
+				continue
+			}
+			key := p.Root.Name() + "|" + types.ExprString(e.Node.(ast.Expr)) + " without a length test"
+			if reported[key] {
+				continue
+			}
+			reported[key] = true
+			o.Fail(&engine.Violation{Key: key, Pos: c.P.Pos(e.Pos), Func: p.Root.Name(),
+				Msg:   types.ExprString(e.Node.(ast.Expr)) + " indexes a slice this function did not build, on a path (and from a call site) that does not test its length",
+				Found: engine.LitsString(conds)})
+		}
+	}
+}
+
+func (n *c12Null) lenGuardedByCallers(c *engine.Ctx, fn *engine.FuncInfo, canon string, k int64, depth int) bool {
+	if depth > 3 || n.entries[fn.Name()] {
+		return false
+	}
+	tok := rootToken(canon)
+	idx, _ := paramIndex(fn, tok)
+	if idx < 0 {
+		return false
+	}
+	sites := n.calls[fn.Obj]
+	if len(sites) == 0 {
+		return false
+	}
+	for _, cs := range sites {
+		e := &cs.path.Events[cs.idx]
+		if idx >= len(e.Args) {
+			return false
+		}
+		sub := substRoot(canon, tok, e.Args[idx])
+		if lenAtLeast(c, engine.CondsBefore(cs.path, cs.idx), sub, k) || lenAtLeast(c, engine.CondsBefore(cs.path, cs.idx), stripVer(sub), k) {
+			continue
+		}
+		if cs.path.Lit == nil && n.lenGuardedByCallers(c, cs.path.Root, sub, k, depth+1) {
+			continue
+		}
+		return false
+	}
+	return true
 }
